@@ -88,17 +88,58 @@ theorem plog_eq_nan {a : FVal K} (h0 : a ≠ nan) (h : plog P a = nan) : FVal.lt
   have := h (not_lt.1 hc)
   split at this <;> simp at this
 
-/-- `log` under the missing hypothesis: the operand's upper bound is positive (Boost returns the empty
-    interval `[NaN,NaN]` otherwise, also for `[0,0]` where the value is `−∞`) -/
-theorem log_enclS_partial (hS : BoostSound Bo P) {A : IVal K} {a : FVal K}
-    (hsafe : FVal.lt zeroV A.hi = true) (ha : enclS A a) :
+theorem feq_zero {x : FVal K} (h : FVal.feq x zeroV = true) : x = fin 0 := by
+  simp only [FVal.feq, Bool.and_eq_true] at h
+  exact fle_antisymm_fin h.2 h.1
+
+theorem fne_zero_cases {x : FVal K} (hx : x ≠ nan) (h : ¬ FVal.feq x zeroV = true) :
+    FVal.lt x zeroV = true ∨ FVal.lt zeroV x = true := by
+  cases x <;> simp_all [FVal.feq, FVal.lt, FVal.le, zeroV]
+  rename_i y
+  intro h0
+  exact absurd (h (le_of_eq h0)) (by rw [h0]; exact lt_irrefl _)
+
+/-- `log`: an operand with upper bound `0` has the value set `{−∞}` (and NaN when flagged);
+    otherwise Boost's `log`, which is non-empty for a positive upper bound. -/
+theorem log_enclS (hS : BoostSound Bo P) {A : IVal K} {a : FVal K} (ha : enclS A a) :
     enclS (ilog Bo A) (plog P a) := by
   unfold ilog
-  refine un_enclS (plog P) rfl (fun h => by simp [h]) ?_ ?_ ha
-  · intro h hn
-    have := h.lo_lt (plog_eq_nan h.1 hn)
-    simp [this]
-  · intro h hn; exact hS.log _ _ h hsafe hn
+  by_cases hz : FVal.feq A.hi zeroV = true
+  · simp only [hz, if_true]
+    refine un_enclS (plog P) rfl (fun h => by simp [h]) ?_ ?_ ha
+    · intro h hn
+      have := h.lo_lt (plog_eq_nan h.1 hn)
+      simp [this]
+    · intro h hn
+      -- a ≤ 0 and log a is not NaN, so a = 0 and the value is −∞
+      have h0 : FVal.le a (fin 0) = true := by
+        have := h.2.2; rw [show A.b.hi = A.hi from rfl, feq_zero hz] at this; exact this
+      have : plog P a = ninf := by
+        cases a with
+        | nan => exact absurd rfl h.1
+        | ninf => exact absurd rfl hn
+        | pinf => simp [FVal.le] at h0
+        | fin x =>
+          have hx : x ≤ 0 := by simpa using h0
+          unfold plog at hn ⊢
+          by_cases h1 : x < 0
+          · simp [h1] at hn
+          · simp [h1, not_lt.2 hx]
+      rw [this]
+      exact ⟨by simp, rfl, rfl⟩
+  · simp only [hz]
+    refine un_enclS (plog P) rfl (fun h => by simp [h]) ?_ ?_ ha
+    · intro h hn
+      have := h.lo_lt (plog_eq_nan h.1 hn)
+      simp [this]
+    · intro h hn
+      rcases fne_zero_cases (ne_nan_of_le_r h.2.2) hz with hneg | hpos
+      · -- the whole operand is negative: no non-NaN value
+        have hlt : FVal.lt a zeroV = true := flt_of_le_of_lt h.2.2 hneg
+        exfalso
+        apply hn
+        cases a <;> simp_all [plog, FVal.lt, zeroV]
+      · exact hS.log _ _ h hpos hn
 
 theorem pasin_eq_nan {f : K → K} {a : FVal K} (h0 : a ≠ nan) (h : pasin f a = nan) :
     FVal.lt a negOneV = true ∨ FVal.gt a oneV = true := by
@@ -128,35 +169,46 @@ theorem acos_enclS (hS : BoostSound Bo P) {A : IVal K} {a : FVal K} (ha : enclS 
     · have := h.lt_hi c; simp [FVal.gt, this]
   · intro h hn; exact hS.acos _ _ h hn
 
-/-! ### sin / cos / tan: only with finite operand bounds -/
+/-! ### sin / cos / tan: an infinite operand bound is flagged -/
 
-theorem ptrig_fin {f : K → K} {A : IVal K} {a : FVal K} (h : inB A a)
-    (hl : A.lo.isFinite = true) (hh : A.hi.isFinite = true) : ptrig f a ≠ nan := by
-  obtain ⟨x, rfl⟩ := h.finite hl hh
-  simp [ptrig]
+theorem ptrig_eq_nan {f : K → K} {a : FVal K} (h0 : a ≠ nan) (h : ptrig f a = nan) :
+    a.isInf = true := by
+  cases a <;> simp_all [ptrig, FVal.isInf]
 
-theorem sin_enclS_partial (hS : BoostSound Bo P) {A : IVal K} {a : FVal K}
-    (hl : A.lo.isFinite = true) (hh : A.hi.isFinite = true) (ha : enclS A a) :
+theorem inB.isInf_bounds {A : IVal K} {a : FVal K} (h : inB A a) (hi : a.isInf = true) :
+    (A.lo.isInf || A.hi.isInf) = true := by
+  cases a <;> simp [FVal.isInf] at hi
+  · rw [h.lo_ninf]; rfl
+  · rw [h.hi_pinf]; simp [FVal.isInf]
+
+theorem sin_enclS (hS : BoostSound Bo P) {A : IVal K} {a : FVal K} (ha : enclS A a) :
     enclS (isin Bo A) (ptrig P.sin a) := by
   unfold isin
-  refine un_enclS (ptrig P.sin) rfl (fun h => h) ?_ ?_ ha
-  · intro h hn; exact absurd hn (ptrig_fin h hl hh)
+  refine un_enclS (ptrig P.sin) rfl (fun h => by simp [h]) ?_ ?_ ha
+  · intro h hn
+    have := h.isInf_bounds (ptrig_eq_nan h.1 hn)
+    simp only [Bool.or_eq_true] at this
+    rcases this with t | t <;> simp [t]
   · intro h hn; exact hS.sin _ _ h hn
 
-theorem cos_enclS_partial (hS : BoostSound Bo P) {A : IVal K} {a : FVal K}
-    (hl : A.lo.isFinite = true) (hh : A.hi.isFinite = true) (ha : enclS A a) :
+theorem cos_enclS (hS : BoostSound Bo P) {A : IVal K} {a : FVal K} (ha : enclS A a) :
     enclS (icos Bo A) (ptrig P.cos a) := by
   unfold icos
-  refine un_enclS (ptrig P.cos) rfl (fun h => h) ?_ ?_ ha
-  · intro h hn; exact absurd hn (ptrig_fin h hl hh)
+  refine un_enclS (ptrig P.cos) rfl (fun h => by simp [h]) ?_ ?_ ha
+  · intro h hn
+    have := h.isInf_bounds (ptrig_eq_nan h.1 hn)
+    simp only [Bool.or_eq_true] at this
+    rcases this with t | t <;> simp [t]
   · intro h hn; exact hS.cos _ _ h hn
 
-theorem tan_enclS_partial (hS : BoostSound Bo P) {A : IVal K} {a : FVal K}
-    (hl : A.lo.isFinite = true) (hh : A.hi.isFinite = true) (ha : enclS A a) :
+theorem tan_enclS (hS : BoostSound Bo P) {A : IVal K} {a : FVal K} (ha : enclS A a) :
     enclS (itan Bo A) (ptrig P.tan a) := by
   unfold itan
-  refine un_enclS (ptrig P.tan) rfl (fun h => h) ?_ ?_ ha
-  · intro h hn; exact absurd hn (ptrig_fin h hl hh)
+  refine un_enclS (ptrig P.tan) rfl (fun h => by simp [h]) ?_ ?_ ha
+  · intro h hn
+    have := h.isInf_bounds (ptrig_eq_nan h.1 hn)
+    simp only [Bool.or_eq_true] at this
+    rcases this with t | t <;> simp [t]
   · intro h hn; exact hS.tan _ _ h hn
 
 /-! ### reciprocal -/
@@ -167,21 +219,29 @@ theorem precip_ne_nan {a : FVal K} (h : a ≠ nan) : precip a ≠ nan := by
   · simp
   · simp
 
-/-- `recip` under the missing hypothesis: the operand interval does not contain zero -/
-theorem recip_enclS_partial (hS : BoostSound Bo P) {A : IVal K} {a r : FVal K}
-    (hsafe : Ivl.hasZero A = false) (ha : enclS A a)
+/-- `recip`: an operand containing zero yields `[−∞,+∞]` (as `operator/` does), so both `1/(+0)`
+    and `1/(−0)` are enclosed -/
+theorem recip_enclS (hS : BoostSound Bo P) {A : IVal K} {a r : FVal K}
+    (ha : enclS A a)
     (hr : r = precip a ∨ (a = fin 0 ∧ r = ninf)) : enclS (irecip Bo A) r := by
   unfold irecip
   by_cases h1 : a = nan
   · subst h1
     rcases hr with rfl | ⟨h, _⟩
-    · exact Or.inl ⟨ha.mn_of_nan, rfl⟩
+    · exact Or.inl ⟨by simp [ha.mn_of_nan], rfl⟩
     · cases h
   · have hin := ha.inB_of_ne h1
-    have h0 : a ≠ fin 0 := hin.ne_zero hsafe
-    rcases hr with rfl | ⟨h, _⟩
-    · exact Or.inr (hS.oneDiv _ _ hin h0)
-    · exact absurd h h0
+    by_cases hz : (FVal.le A.lo zeroV && FVal.ge A.hi zeroV) = true
+    · simp only [hz, if_true]
+      rcases hr with rfl | ⟨_, rfl⟩
+      · exact Or.inr (inBb_whole (precip_ne_nan h1))
+      · exact Or.inr (inBb_whole (by simp))
+    · simp only [hz]
+      have hz' : Ivl.hasZero A = false := by simpa [Ivl.hasZero] using hz
+      have h0 : a ≠ fin 0 := hin.ne_zero hz'
+      rcases hr with rfl | ⟨h, _⟩
+      · exact Or.inr (hS.oneDiv _ _ hin h0)
+      · exact absurd h h0
 
 /-! ### pow / nth_root with an integer constant exponent -/
 
@@ -197,12 +257,13 @@ theorem point_operand {B : IVal K} {b : FVal K} {y : K} (hB : B = ⟨fin y, fin 
   · exact Bool.noConfusion h
   · exact fle_antisymm_fin h.2.1 h.2.2
 
-/-- `pow` for an integer constant exponent `k`, under the missing hypotheses: for `k < 0` the base
-    interval does not contain zero (no zero-crossing rule, unlike `operator/`); for `k = 0` the base is
-    not the point interval `[0,0]` (Boost returns the empty interval). -/
+/-- `pow` for an integer constant exponent `k` (the only exponents libfive's API admits).  For
+    `k < 0` a base containing zero yields `[−∞,+∞]`.  Remaining hypothesis: for `k = 0` the base is not
+    the point interval `[0,0]` (Boost returns the empty interval there; the result is flagged, but its
+    bounds do not contain the value `0^0 = 1`). -/
 theorem pow_enclS_partial (hS : BoostSound Bo P) {A B : IVal K} {a b r : FVal K} {y : K} {k : Int}
     (hB : B = ⟨fin y, fin y, false⟩) (hk : P.toInt? y = some k) (hti : Bo.toInt (fin y) = k)
-    (hneg : k < 0 → Ivl.hasZero A = false) (hzero : k = 0 → ¬ (A.lo = fin 0 ∧ A.hi = fin 0))
+    (hzero : k = 0 → ¬ (A.lo = fin 0 ∧ A.hi = fin 0))
     (ha : enclS A a) (hb : enclS B b)
     (hr : r = pointOp P Op.pow a b ∨
       (a = fin 0 ∧ (∃ k', expOf P b = some k' ∧ k' < 0) ∧ r = ninf)) :
@@ -221,14 +282,25 @@ theorem pow_enclS_partial (hS : BoostSound Bo P) {A B : IVal K} {a b r : FVal K}
       exact Or.inl ⟨by simp [ha.mn_of_nan], rfl⟩
     · cases h
   · have hin := ha.inB_of_ne h1
-    rcases hr with rfl | ⟨h0, ⟨k', hk', hlt⟩, _⟩
-    · rw [hp]
-      refine Or.inr (hS.powi _ _ _ hin hzero ?_)
-      intro hk0
-      exact hin.ne_zero (hneg hk0)
-    · rw [he] at hk'
-      cases hk'
-      exact absurd h0 (hin.ne_zero (hneg hlt))
+    by_cases hc : ((FVal.le A.lo zeroV && FVal.ge A.hi zeroV) && decide (k < 0)) = true
+    · simp only [hc, if_true]
+      rcases hr with rfl | ⟨_, _, rfl⟩
+      · rw [hp]; exact Or.inr (inBb_whole (ppowi_ne_nan h1))
+      · exact Or.inr (inBb_whole (by simp))
+    · simp only [hc]
+      have hnz : k < 0 → a ≠ fin 0 := by
+        intro hk0
+        have : (FVal.le A.lo zeroV && FVal.ge A.hi zeroV) = false := by
+          cases hh : (FVal.le A.lo zeroV && FVal.ge A.hi zeroV)
+          · rfl
+          · simp [hh, hk0] at hc
+        exact hin.ne_zero (by simpa [Ivl.hasZero] using this)
+      rcases hr with rfl | ⟨h0, ⟨k', hk', hlt⟩, _⟩
+      · rw [hp]
+        exact Or.inr (hS.powi _ _ _ hin hzero hnz)
+      · rw [he] at hk'
+        cases hk'
+        exact absurd h0 (hnz hlt)
 
 theorem pnthRoot_eq_nan {x : K} {k : Int} (h : pnthRoot P (fin x) k = nan) :
     x < 0 ∧ oddI k = false := by
@@ -240,13 +312,12 @@ theorem pnthRoot_eq_nan {x : K} {k : Int} (h : pnthRoot P (fin x) k = nan) :
     · exact ⟨hx, by simpa using ho⟩
   · simp [hx] at h
 
-/-- `nth_root` for an integer constant `k ≥ 1`, under the missing hypotheses: finite operand bounds
-    (Boost returns NaN bounds otherwise) and, for an even root of an interval with negative values,
-    `bPt & 2 = 0` — the flag tests bit 1 instead of the parity. -/
+/-- `nth_root` for an integer constant `k ≥ 1`.  Remaining hypothesis: finite operand bounds (Boost's
+    `nth_root` returns a NaN bound for an infinite endpoint; the result is then flagged, but its bounds
+    do not contain the value at `+∞`). -/
 theorem nthRoot_enclS_partial (hS : BoostSound Bo P) {A B : IVal K} {a b : FVal K} {y : K} {k : Int}
     (hB : B = ⟨fin y, fin y, false⟩) (hk : P.toInt? y = some k) (hti : Bo.toInt (fin y) = k)
     (h1 : 1 ≤ k) (hl : A.lo.isFinite = true) (hh : A.hi.isFinite = true)
-    (hpar : FVal.lt A.lo zeroV = true → oddI k = false → bit1 k = false)
     (ha : enclS A a) (hb : enclS B b) :
     enclS (inthRoot Bo A B) (pointOp P Op.nthRoot a b) := by
   have hbv := point_operand hB hb
@@ -265,8 +336,8 @@ theorem nthRoot_enclS_partial (hS : BoostSound Bo P) {A B : IVal K} {a b : FVal 
       obtain ⟨x, rfl⟩ := hin.finite hl hh
       obtain ⟨hx, ho⟩ := pnthRoot_eq_nan hn
       have hlt : FVal.lt A.lo zeroV = true := hin.lo_lt (by simp [zeroV, hx])
-      have hle := fle_of_lt hlt
-      simp [hle, hpar hlt ho]
+      have hb0 : bit0 k = false := ho
+      simp [hlt, hb0]
   · intro hn
     have h0 : a ≠ nan := by rintro rfl; exact hn rfl
     exact hS.nthRoot _ _ _ (ha.inB_of_ne h0) hl hh h1 hn
